@@ -130,7 +130,7 @@ def values_diff(orig, back, trim):
     return None
 
 
-def doc_diff(orig, back, trim=False, sibling_order=True):
+def doc_diff(orig, back, trim=False, sibling_order=True, uncertainty_text=False):
     """First difference between two documents on everything the save/load properties list, or None."""
     if back is None:
         return "no document was returned"
@@ -143,7 +143,7 @@ def doc_diff(orig, back, trim=False, sibling_order=True):
             return "document attribute %s changed" % attr[1:]
     if not same_attr(orig._date, back._date):
         return "document date changed"
-    return _sections_diff(orig, back, trim, sibling_order)
+    return _sections_diff(orig, back, trim, sibling_order, uncertainty_text)
 
 
 def _match(lst_a, lst_b, sibling_order):
@@ -160,7 +160,7 @@ def _match(lst_a, lst_b, sibling_order):
     return pairs
 
 
-def _sections_diff(orig, back, trim, sibling_order):
+def _sections_diff(orig, back, trim, sibling_order, uncertainty_text=False):
     secs_a = C.raw(orig._sections)
     secs_b = C.raw(back._sections)
     if len(secs_a) != len(secs_b):
@@ -189,18 +189,18 @@ def _sections_diff(orig, back, trim, sibling_order):
         for p, q in _match(props_a, props_b, sibling_order):
             if q is None:
                 return "a property is missing"
-            diff = prop_diff(p, q, trim)
+            diff = prop_diff(p, q, trim, uncertainty_text)
             if diff is not None:
                 return diff
             if q._parent is not b:
                 return "a loaded property does not report its section as parent"
-        diff = _sections_diff(a, b, trim, sibling_order)
+        diff = _sections_diff(a, b, trim, sibling_order, uncertainty_text)
         if diff is not None:
             return diff
     return None
 
 
-def prop_diff(p, q, trim=False):
+def prop_diff(p, q, trim=False, uncertainty_text=False):
     if p.id != q.id:
         return "property id changed (or sibling order changed)"
     if not same_attr(p._name, q._name, trim):
@@ -208,7 +208,15 @@ def prop_diff(p, q, trim=False):
     for attr in ("_unit", "_definition", "_reference", "_dependency", "_dependency_value", "_value_origin"):
         if not same_attr(getattr(p, attr), getattr(q, attr), trim):
             return "property attribute %s changed" % attr[1:]
-    if not same_attr(p._uncertainty, q._uncertainty):
+    if uncertainty_text and isinstance(p._uncertainty, (int, float)) and isinstance(q._uncertainty, str):
+        # open finding F-C01-uncertainty-text: XML returns the number as text; the number itself must survive
+        try:
+            same = float(q._uncertainty) == float(p._uncertainty)
+        except ValueError:
+            same = False
+        if not same:
+            return "property uncertainty changed"
+    elif not same_attr(p._uncertainty, q._uncertainty, trim):
         return "property uncertainty changed (or changed its type)"
     if not same_attr(p._val_cardinality, q._val_cardinality):
         return "property val_cardinality changed"
